@@ -11,5 +11,6 @@ import (
 	_ "verif/props/c07"
 	_ "verif/props/c09"
 	_ "verif/props/c10"
+	_ "verif/props/c19"
 	_ "verif/props/smoke"
 )
